@@ -63,6 +63,8 @@ reg("strict-decq", F(*BASE, "f-strict-parser", "f-opt-low-memory-hex-str-decode-
                      "f-opt-dist-qratios-table-double"))
 reg("strict-decmin", F(*BASE, "f-strict-parser", "f-opt-low-memory-hex-str-decode-min-table", "f-opt-dist-qratios-table-double"))
 reg("strict-nosimd", F(*BASE, "f-strict-parser", "f-opt-low-memory-hex-str-decode-half-table", "f-opt-pearson-table-double"))
+reg("strict-unsafe", F("tlsh-default", "f-strict-parser", "f-unsafe"))
+reg("simd-decmin", F("tlsh-default", "f-opt-low-memory-hex-str-decode-min-table", "f-opt-low-memory-hex-str-encode-half-table"))
 reg("serde-buffered-strict", F("tlsh-default", "serde-suite", "f-serde-buffered", "f-strict-parser"))
 CFG_QUICK = ["default", "nosimd", "embedded", "lowmem", "decq", "decmin", "static-sse2", "mixed-a", "unsafe-debug"]
 CFG_ALL = ["default", "nosimd", "embedded", "lowmem", "decq", "decmin", "static-sse2", "static-ssse3", "static-sse41",
@@ -140,5 +142,5 @@ def derived_flags(name):
     return sorted(fl)
 
 
-for _n in ("mixed-a", "mixed-b", "strict-decq", "strict-decmin", "strict-nosimd", "serde-buffered-strict"):
+for _n in ("mixed-a", "mixed-b", "strict-decq", "strict-decmin", "strict-nosimd", "strict-unsafe", "simd-decmin", "serde-buffered-strict"):
     CONFIGS[_n]["flags"] = derived_flags(_n)
